@@ -56,9 +56,8 @@ class Printer:
     def __init__(self, checked=False):
         self.u = 0
         self.checked = checked
-        # inside a method body the helper call tg(k, v) is printed as the block expression
-        # (do println(k); v end): a user method that calls another user method crashes the VM
-        # nondeterministically on this tree (not a control-flow matter; reported separately)
+        # in_method_blocks = True prints the helper call tg(k, v) inside method bodies as the block
+        # expression (do println(k); v end) instead (both forms are exercised: odd-numbered tags)
         self.in_method = False
 
     def val(self, v):
@@ -82,7 +81,7 @@ class Printer:
         if op == "lt":
             return "(c%s < %s)" % (e[1], e[2])
         if op == "tag":
-            if self.in_method:
+            if self.in_method and int(e[1]) % 2 == 1:
                 return "(do\nprintln(%s)\n%s\nend)" % (e[1], self.expr(e[2]))
             return "tg(%s, %s)" % (e[1], self.expr(e[2]))
         if op == "not":
@@ -221,9 +220,11 @@ class Ctx:
         self.cv = False        # innermost enclosing catch clause binds a variable
         self.free = list(range(NLOC))
         self.callable_n = callable_n
+        self.fin_depth = 0     # number of enclosing finally bodies in this frame
 
-    def sub(self, loops=None, cv=None):
+    def sub(self, loops=None, cv=None, fin=0):
         c = Ctx(self.callable_n)
+        c.fin_depth = self.fin_depth + fin
         c.loops = list(self.loops) if loops is None else loops
         c.cv = self.cv if cv is None else cv
         c.free = self.free     # shared: counters are per frame
@@ -318,7 +319,9 @@ class Gen:
     # ---- random programs
     def leaf(self, c):
         opts = [("print", 5), ("show", 3), ("throw", 4), ("return", 1), ("defer", 1)]
-        if c.loops:
+        if c.loops and c.fin_depth < 2:
+            # break/continue out of a finally body nested in another finally body: known finding
+            # exit-from-nested-finally-body (enumerated shapes and the corpus still cover it)
             opts += [("break", 3), ("continue", 2)]
         if c.cv:
             opts += [("showcaught", 2), ("rethrow", 2)]
@@ -378,13 +381,13 @@ class Gen:
             binds = pat in ("pint", "pstr") or (isinstance(pat, list) and pat[0] == "any" and pat[1] == 1)
             clauses.append((pat, self.block(d - 1, c.sub(cv=binds))))
         if self.r.chance(3, 5):
-            return self.fin_do(body, clauses, self.block(d - 1, c) if self.r.chance(2, 3) else None)
+            return self.fin_do(body, clauses, self.block(d - 1, c.sub(fin=1)) if self.r.chance(2, 3) else None)
         return do(body, clauses, None)
 
     def random_program(self, depth):
         nm = self.r.choice([0, 0, 1, 1, 2])
         for i in range(nm):
-            self.methods.append(self.block(depth - 1, Ctx(0)))   # methods do not call user methods (see Printer)
+            self.methods.append(self.block(depth - 1, Ctx(i)))   # method i may call methods 0..i-1
         main = self.block(depth, Ctx(nm))
         if self.r.chance(1, 3):
             main = do(main, [(["any", 1], seq(self.P(), "showcaught"))], self.P() if self.r.chance(1, 2) else None)
@@ -532,6 +535,25 @@ def kinds_of(ast, acc=None):
     return acc
 
 
+def nested_finally_exit(ast, fd=0):
+    """a break/continue that sits inside a finally body which is itself inside a finally body"""
+    if not isinstance(ast, list) or not ast:
+        return False
+    op = ast[0]
+    if op in ("break", "continue"):
+        return fd >= 2
+    if op == "do":
+        if nested_finally_exit(ast[1], fd):
+            return True
+        for c in ast[2][1:]:
+            if nested_finally_exit(c[2], fd):
+                return True
+        return ast[3] != "nofin" and nested_finally_exit(ast[3][1], fd + 1)
+    if op == "prog":
+        return any(nested_finally_exit(m_, 0) for m_ in ast[1][1:]) or nested_finally_exit(ast[2], 0)
+    return any(nested_finally_exit(x, fd) for x in ast[1:])
+
+
 STMT_KINDS = ["do", "loop", "while", "break", "continue", "return", "throw", "rethrow", "defer", "call", "if", "show",
               "and", "or", "coal", "fin"]
 
@@ -588,9 +610,8 @@ def prog_stream(ctx, elk, model):
     n_all_shapes = len(shapes)
     small = [s for s in shapes if len(s[0]) == 2]
     big = [s for s in shapes if len(s[0]) > 2]
-    if ctx.quick():
-        rng.shuffle(big)
-        big = big[:ctx.n(500, 0)]
+    rng.shuffle(big)
+    big = big[:ctx.n(250, 9000)]
     chosen = small + big
     n_invalid = 0
     for i, (shape, tc) in enumerate(chosen):
@@ -600,7 +621,7 @@ def prog_stream(ctx, elk, model):
             n_invalid += 1
             continue
         cases.append(("s%05d" % i, p, "shape:" + "/".join(shape) + (":topcatch" if tc else ""), g.pairs, False))
-    for i in range(ctx.n(400, 20000)):
+    for i in range(ctx.n(250, 6000)):
         g = Gen(rng)
         depth = 2 + rng.below(3) if i % 4 else 3 + rng.below(3)
         p = g.random_program(depth)
@@ -626,15 +647,15 @@ def prog_stream(ctx, elk, model):
     progs = [(c[0], Printer(c[4]).program(c[1])) for c in runnable]
     results = vlib.run_programs(elk, progs, os.path.join(ctx.workdir, "prog"), workers=16, timeout=10)
     srcs = dict(progs)
-    # a crash / hang is re-run (up to 3 times) before it is believed: the VM on this tree has a
-    # nondeterministic crash unrelated to control flow; only a crash that persists is a failure
+    # a crash / hang is re-run (up to 3 times) before it is believed (heavily loaded machine, 10 s
+    # timeout); only a crash that persists is a failure; the number of re-runs is in the evidence
     CRASH = ("go_panic", "go_fatal", "timeout", "signal")
     flaky = {}
     for attempt in range(3):
         again = [(i, srcs[i]) for i, r in results.items() if r[2] in CRASH]
         if not again:
             break
-        rr = vlib.run_programs(elk, again, os.path.join(ctx.workdir, "prog"), workers=8, timeout=10)
+        rr = vlib.run_programs(elk, again, os.path.join(ctx.workdir, "prog"), workers=8, timeout=25)
         for i, r in rr.items():
             if r[2] not in CRASH:
                 flaky[i] = results[i][2]
@@ -691,14 +712,19 @@ def prog_stream(ctx, elk, model):
             continue
         n_mismatch += 1
         first_kind = abrupt.split(",")[0] if abrupt else ""
-        if outcome in ("go_panic", "go_fatal", "timeout", "signal"):
-            key = "crash:%s:%s" % (outcome, origin if origin.startswith("shape") else "+".join(sorted(ks & set(STMT_KINDS))))
-            oracle = "implementation crashed / hung on a program the reference interpreter runs to completion"
-        elif first_kind and outcome == dev_out and std == dev_std:
+        if first_kind and outcome == dev_out and std == dev_std:
             key = "catch-exit-skips-finally:" + first_kind
             oracle = ("finally body not run when a catch clause of the same do exits by %s (implementation output equals the "
                       "deviating interpreter run false)" % first_kind)
             n_known_class += 1
+        elif outcome not in ("go_panic", "go_fatal", "signal") and nested_finally_exit(ast):
+            key = "exit-from-nested-finally-body"
+            oracle = ("program contains break/continue inside a finally body nested in another finally body; the enclosing "
+                      "finally body is repeated or the program hangs (stale JUMP_TO_FINALLY operands on the value stack)")
+            n_known_class += 1
+        elif outcome in ("go_panic", "go_fatal", "timeout", "signal"):
+            key = "crash:%s:%s" % (outcome, origin if origin.startswith("shape") else "+".join(sorted(ks & set(STMT_KINDS))))
+            oracle = "implementation crashed / hung on a program the reference interpreter runs to completion"
         elif ok and o2_bad is not None:
             key = "oracle2:" + (origin if origin.startswith("shape") else "+".join(sorted(ks & set(STMT_KINDS))))
             oracle = "do body entered %d times but its finally ran %d times (tags %s/%s)" % (o2_bad[2], o2_bad[3], o2_bad[0], o2_bad[1])
@@ -719,7 +745,7 @@ def prog_stream(ctx, elk, model):
                "programs of Model/C14_Control.v printed to Elk and run by `elk run`; compared: printed lines and outcome "
                "(ok | uncaught <value> | go_panic | go_fatal | timeout) with the extracted reference interpreter; "
                "corpus first, then enumerated nestings (11 wrappers ^ depth 1..3 x 11 exit leaves x top-level catch on/off = %d shapes, "
-               "all depth-1 + sampled deeper in quick, all in thorough), then random programs of depth 2-5; "
+               "all depth-1 + 250 sampled deeper in quick / 9000 in thorough), then random programs of depth 2-5; "
                "non-trivial = contains a do/loop/defer/call/short-circuit; second oracle on the implementation's own output: "
                "enter-tag count == finally-tag count for every do-with-finally" % n_all_shapes,
                samples,
@@ -737,12 +763,12 @@ def table_stream(ctx, model):
     progs = []
     shapes = all_shapes()
     rng.shuffle(shapes)
-    for i, (shape, tc) in enumerate(shapes[:ctx.n(150, 3000)]):
+    for i, (shape, tc) in enumerate(shapes[:ctx.n(100, 3000)]):
         g = Gen(rng)
         p = g.shape_program(shape, tc)
         if p is not None:
             progs.append(("s%05d" % i, Printer(False).program(p)))
-    for i in range(ctx.n(100, 2000)):
+    for i in range(ctx.n(60, 2000)):
         g = Gen(rng)
         progs.append(("r%05d" % i, Printer(False).program(g.random_program(2 + rng.below(3)))))
     d = os.path.join(ctx.workdir, "tables")
@@ -796,3 +822,137 @@ def table_stream(ctx, model):
                "instruction bytes; the extracted checker decides laminar, post_order and the NIL;JUMP;..;UNDEFINED shape at every "
                "finally entry; non-trivial = at least 2 entries",
                samples, dict(functions=n_tables, entries=n_entries), violations=bad)
+
+
+# ----------------------------------------------------------------------------- shrinking (used by hand / for corpus entries)
+
+def _stmt_positions(ast, path=()):
+    """paths of sub-statements (very small grammar knowledge: which children are statements)"""
+    out = []
+    if isinstance(ast, list) and ast:
+        op = ast[0]
+        kids = {"seq": [1, 2], "if": [2, 3], "loop": [2], "while": [3], "do": [1], "prog": [2]}.get(op, [])
+        if op in ("seq", "if", "loop", "while", "do", "print", "show", "setc", "incr", "break", "continue", "return", "throw",
+                  "defer", "call"):
+            out.append(path)
+        for k in kids:
+            out += _stmt_positions(ast[k], path + (k,))
+        if op == "do":
+            for ci, c in enumerate(ast[2][1:], 1):
+                out += _stmt_positions(c[2], path + (2, ci, 2))
+            if ast[3] != "nofin":
+                out += _stmt_positions(ast[3][1], path + (3, 1))
+        if op == "prog":
+            for mi, m_ in enumerate(ast[1][1:], 1):
+                out += _stmt_positions(m_, path + (1, mi))
+    elif ast in ("showcaught", "rethrow"):
+        out.append(path)
+    return out
+
+
+def _get(ast, path):
+    for k in path:
+        ast = ast[k]
+    return ast
+
+
+def _set(ast, path, new):
+    if not path:
+        return new
+    cp = list(ast)
+    cp[path[0]] = _set(ast[path[0]], path[1:], new)
+    return cp
+
+
+def shrink(ast, bad, budget=400):
+    """greedy subtree replacement while bad(ast) stays true"""
+    changed = True
+    while changed and budget > 0:
+        changed = False
+        for path in sorted(_stmt_positions(ast), key=len):
+            try:
+                node = _get(ast, path)
+            except (IndexError, TypeError):
+                continue
+            if node == "skip":
+                continue
+            cands = ["skip"]
+            if isinstance(node, list):
+                if node[0] == "seq":
+                    cands += [node[1], node[2]]
+                elif node[0] == "if":
+                    cands += [node[2], node[3]]
+                elif node[0] in ("loop",):
+                    cands += [node[2]]
+                elif node[0] == "while":
+                    cands += [node[3]]
+                elif node[0] == "do":
+                    cands += [node[1]]
+                    if node[3] != "nofin":
+                        cands += [node[:3] + ["nofin"]]
+                    if len(node[2]) > 1:
+                        cands += [node[:2] + [["catches"]] + node[3:]]
+                        for ci in range(1, len(node[2])):
+                            cands += [node[:2] + [node[2][:ci] + node[2][ci + 1:]] + node[3:]]
+            for c in cands:
+                budget -= 1
+                trial = _set(ast, path, c)
+                if budget > 0 and bad(trial):
+                    ast = trial
+                    changed = True
+                    break
+            if changed:
+                break
+    return ast
+
+
+def shrink_main(argv):
+    """python3 checks/C14.py <replay.json | file with one s-expression>  -> prints a minimised program"""
+    import json
+    import sys
+    import tempfile
+    sys.path.insert(0, os.path.join(os.path.dirname(os.path.abspath(__file__)), "..", "lib"))
+    src = open(argv[1]).read()
+    case = json.loads(src)["case"] if src.lstrip().startswith("{") else src.strip()
+    ast = parse_sexp(case)
+    elk = os.path.join(vlib.BUILD, "elk")
+    model = os.path.join(vlib.BUILD, "m_C14")
+    wd = tempfile.mkdtemp(prefix="c14shrink")
+
+    def verdict(a):
+        rc, exp, _ = vlib.run_model(model, ["x"], {"x": "P " + to_sexp(a)})
+        e = exp.get("x", "bad")
+        if e.startswith(("fuel", "bad")):
+            return None
+        f = (e.split("|") + [""] * 5)[:5]
+        for _ in range(3):
+            rc_, out = vlib.run_elk_program(elk, Printer().program(a), wd, "x", timeout=10)
+            cls = vlib.classify_elk(rc_, out)
+            if cls not in ("go_panic", "go_fatal", "timeout", "signal"):
+                break
+        outcome, std = observe(rc_, out, cls)
+        return outcome, std, f
+
+    def bad(a):
+        v = verdict(a)
+        if v is None:
+            return False
+        outcome, std, f = v
+        if outcome == "reject":
+            return False
+        if (outcome, std) == (f[0], f[1]):
+            return False
+        if f[2] and (outcome, std) == (f[3], f[4]):
+            return False      # known class
+        return True
+    print("initially bad:", bad(ast))
+    small = shrink(ast, bad)
+    print(to_sexp(small))
+    print(Printer().program(small))
+    print(verdict(small))
+
+
+if __name__ == "__main__":
+    import sys
+    sys.path.insert(0, os.path.join(os.path.dirname(os.path.abspath(__file__)), "..", "lib"))
+    shrink_main(sys.argv)
